@@ -2,12 +2,262 @@ package main
 
 // Per-property sweeps (obligations generated without per-function annotation).
 
-func (w *World) sweepsFor(prop string, cfg *RunCfg) []workItem {
-	switch prop {
+import (
+	"go/types"
+	"sort"
+	"strings"
+
+	"golang.org/x/tools/go/ssa"
+)
+
+type regSite struct {
+	Kind    string // LeafDecoder WrapperDecoder MultiCauseDecoder LeafEncoder WrapperEncoder WrapperEncoderWithMessageType MultiCauseEncoder
+	Fn      *ssa.Function
+	KeyType types.Type // type passed to GetTypeKey when statically known
+	In      *ssa.Function
+}
+
+// registrationSites extracts every Register* call of the module from SSA.
+func (w *World) registrationSites() []regSite {
+	var out []regSite
+	var fns []*ssa.Function
+	for fn := range w.AllFuncs {
+		if fn.Pkg != nil && w.InModule(fn.Pkg.Pkg) {
+			fns = append(fns, fn)
+		}
+	}
+	sort.Slice(fns, func(i, j int) bool { return fns[i].String() < fns[j].String() })
+	for _, fn := range fns {
+		if strings.HasSuffix(fn.Pkg.Pkg.Path(), "/testutils") || strings.Contains(fn.Pkg.Pkg.Path(), "fmttests") {
+			continue
+		}
+		for _, b := range fn.Blocks {
+			for _, ins := range b.Instrs {
+				call, ok := ins.(*ssa.Call)
+				if !ok {
+					continue
+				}
+				callee := call.Call.StaticCallee()
+				if callee == nil || callee.Pkg == nil || !strings.HasSuffix(callee.Pkg.Pkg.Path(), "/errbase") {
+					continue
+				}
+				name := callee.Name()
+				if !strings.HasPrefix(name, "Register") || !(strings.HasSuffix(name, "Decoder") || strings.HasSuffix(name, "Encoder") || strings.HasSuffix(name, "EncoderWithMessageType")) {
+					continue
+				}
+				if fn.Pkg.Pkg.Path() == callee.Pkg.Pkg.Path() && strings.HasPrefix(fn.Name(), "Register") {
+					continue // forwarding inside errbase
+				}
+				if len(call.Call.Args) != 2 {
+					continue
+				}
+				target := resolveFuncValue(call.Call.Args[1])
+				if target == nil {
+					continue
+				}
+				rs := regSite{Kind: strings.TrimPrefix(name, "Register"), Fn: target, In: fn}
+				rs.KeyType = keyTypeOf(call.Call.Args[0])
+				out = append(out, rs)
+			}
+		}
+	}
+	return out
+}
+
+func resolveFuncValue(v ssa.Value) *ssa.Function {
+	for i := 0; i < 6; i++ {
+		switch x := v.(type) {
+		case *ssa.Function:
+			return x
+		case *ssa.MakeClosure:
+			return x.Fn.(*ssa.Function)
+		case *ssa.ChangeType:
+			v = x.X
+		case *ssa.MakeInterface:
+			v = x.X
+		default:
+			return nil
+		}
 	}
 	return nil
 }
 
-func propAssumptions(prop string) []string {
+// keyTypeOf: the static type of the argument of GetTypeKey(...) feeding a registration.
+func keyTypeOf(v ssa.Value) types.Type {
+	for i := 0; i < 6; i++ {
+		switch x := v.(type) {
+		case *ssa.Call:
+			if c := x.Call.StaticCallee(); c != nil && c.Name() == "GetTypeKey" && len(x.Call.Args) == 1 {
+				a := x.Call.Args[0]
+				for j := 0; j < 4; j++ {
+					switch y := a.(type) {
+					case *ssa.MakeInterface:
+						return y.X.Type()
+					case *ssa.ChangeInterface:
+						a = y.X
+					default:
+						j = 4
+					}
+				}
+				return nil
+			}
+			return nil
+		case *ssa.Phi:
+			return nil
+		default:
+			return nil
+		}
+	}
 	return nil
+}
+
+// errorTypeMethods: methods (with bodies) of module types that implement error, plus opaque types.
+func (w *World) errorTypeMethods() []*ssa.Function {
+	errT := types.Universe.Lookup("error").Type().Underlying().(*types.Interface)
+	var out []*ssa.Function
+	seen := map[*ssa.Function]bool{}
+	var paths []string
+	for p := range w.Pkgs {
+		paths = append(paths, p)
+	}
+	sort.Strings(paths)
+	for _, p := range paths {
+		sp := w.Pkgs[p]
+		if !w.InModule(sp.Pkg) || strings.Contains(p, "testutils") || strings.Contains(p, "fmttests") {
+			continue
+		}
+		var names []string
+		for n := range sp.Members {
+			names = append(names, n)
+		}
+		sort.Strings(names)
+		for _, n := range names {
+			tm, ok := sp.Members[n].(*ssa.Type)
+			if !ok {
+				continue
+			}
+			for _, t := range []types.Type{tm.Type(), types.NewPointer(tm.Type())} {
+				if !types.Implements(t, errT) {
+					continue
+				}
+				ms := w.Prog.MethodSets.MethodSet(t)
+				for i := 0; i < ms.Len(); i++ {
+					fn := w.Prog.MethodValue(ms.At(i))
+					if fn == nil || len(fn.Blocks) == 0 || seen[fn] || fn.Synthetic != "" {
+						continue
+					}
+					if fn.Pkg == nil || !w.InModule(fn.Pkg.Pkg) {
+						continue
+					}
+					seen[fn] = true
+					out = append(out, fn)
+				}
+			}
+		}
+	}
+	return out
+}
+
+func (w *World) sweepsFor(prop string, cfg *RunCfg) []workItem {
+	var items []workItem
+	switch prop {
+	case "C05":
+		done := map[*ssa.Function]bool{}
+		for _, rs := range w.registrationSites() {
+			if !strings.Contains(rs.Kind, "Decoder") || done[rs.Fn] {
+				continue
+			}
+			done[rs.Fn] = true
+			kind := rs.Kind
+			items = append(items, workItem{fn: rs.Fn, why: "registered " + kind, opts: VerifyOpts{
+				Props: map[string]bool{"C05": true}, Safety: true, Vacuity: true,
+				ExtraRequires: uniformDecoderRequires,
+			}})
+		}
+		for _, fn := range w.errorTypeMethods() {
+			if done[fn] || w.isGenerated(fn) {
+				continue
+			}
+			done[fn] = true
+			if _, has := w.Contracts[fn]; has {
+				continue // planned through its contract when tagged C05; otherwise swept below
+			}
+			items = append(items, workItem{fn: fn, why: "method of error type", opts: VerifyOpts{Props: map[string]bool{"C05": true}, Safety: true, ExtraRequires: ifaceParamsNonNil}})
+		}
+		// methods with contracts not tagged C05 are still swept for safety
+		var cfns []*ssa.Function
+		for fn, c := range w.Contracts {
+			if fn.Signature.Recv() != nil && !contractMentions(c, "C05") && c.Trusted == "" && !c.NoBody {
+				cfns = append(cfns, fn)
+			}
+		}
+		sort.Slice(cfns, func(i, j int) bool { return cfns[i].String() < cfns[j].String() })
+		for _, fn := range cfns {
+			items = append(items, workItem{fn: fn, why: "method of error type", opts: VerifyOpts{Props: map[string]bool{"C05": true}, Safety: true, ExtraRequires: ifaceParamsNonNil}})
+		}
+	}
+	return items
+}
+
+func propAssumptions(prop string) []string {
+	switch prop {
+	case "C05":
+		return []string{
+			"C05: decoders are checked against the uniform decoder contract (payload: any interface value; details: any slice; msg: any string; wrapper cause non-nil)",
+			"C05: panics inside protobuf unmarshalling, fmt, redact, sentry are not decided (external)",
+			"C05: receivers of error-type methods are non-nil (T13)",
+		}
+	}
+	return nil
+}
+
+// isGenerated: protobuf-generated code (T9) is outside the claim.
+func (w *World) isGenerated(fn *ssa.Function) bool {
+	if fn.Pkg != nil && strings.HasSuffix(fn.Pkg.Pkg.Path(), "/errorspb") {
+		return true
+	}
+	p := w.Fset.Position(fn.Pos())
+	return strings.HasSuffix(p.Filename, ".pb.go")
+}
+
+// uniformDecoderRequires: the contract every registered decoder is checked against (DESIGN A.5).
+func uniformDecoderRequires(ex *Ex, fr *Frame, st *State) []*T {
+	var rq []*T
+	for _, p := range fr.Fn.Params {
+		v := st.regs[p].T
+		switch {
+		case p.Name() == "cause" && isIface(p.Type()):
+			rq = append(rq, Not(IfaceIsNil(v)))
+		case p.Name() == "causes" && isSliceT(p.Type()):
+			es := ex.W.SortOf(p.Type().Underlying().(*types.Slice).Elem())
+			j := Var("j!c", SInt)
+			rq = append(rq, Forall([]*T{j}, Implies(And(Ge(j, IntLit(0)), Lt(j, ex.W.SliceLen(v))), Not(IfaceIsNil(Select(ex.W.SliceArr(v, es), j))))))
+		case p.Name() == "payload" && isIface(p.Type()):
+			// an embedded EncodedError is itself structurally complete
+			env := ex.newEnv(fr, st)
+			env.pkgName = "errbase"
+			e, err := parseExprString("typeis(payload, *errorspb.EncodedError) && payload.(*errorspb.EncodedError).Error != nil ==> complete(deref(payload.(*errorspb.EncodedError)))", "uniform", 0)
+			if err == nil {
+				env.vars["payload"] = SV{T: v, Ty: SType{G: p.Type()}}
+				if t, err := ex.trBool(env, e); err == nil {
+					rq = append(rq, t)
+				}
+			}
+		}
+	}
+	return rq
+}
+
+// ifaceParamsNonNil: interface parameters other than error/any (Printer, fmt.State, ...) are non-nil.
+func ifaceParamsNonNil(ex *Ex, fr *Frame, st *State) []*T {
+	var rq []*T
+	for i, p := range fr.Fn.Params {
+		if i == 0 && fr.Fn.Signature.Recv() != nil {
+			continue
+		}
+		if it, ok := p.Type().Underlying().(*types.Interface); ok && it.NumMethods() > 0 && p.Type().String() != "error" {
+			rq = append(rq, Not(IfaceIsNil(st.regs[p].T)))
+		}
+	}
+	return rq
 }
